@@ -21,6 +21,11 @@ pub use transport::{Transport, TransportConnect, TransportListen};
 pub use driver::{NetEvent};
 pub use poll::{Readiness};
 
+#[cfg(message_io_verif)]
+pub use resource_id::{ResourceIdGenerator};
+#[cfg(message_io_verif)]
+pub use poll::{verif_token_of_id, verif_id_of_token};
+
 use loader::{DriverLoader, ActionControllerList, EventProcessorList};
 use poll::{Poll, PollEvent};
 
